@@ -109,6 +109,10 @@ pub struct OpSpec {
     /// hashes followed by j's value (same Merkle hash input, different node)
     #[serde(default)]
     pub twin_of: Option<u16>,
+    /// Some(j): the very same node (children and value) as earlier op j, but with this spec's own
+    /// source / signature / address: a re-signed copy of a known entry
+    #[serde(default)]
+    pub copy_of: Option<u16>,
 }
 
 #[derive(Clone, Copy, Debug, Serialize, Deserialize, PartialEq, Eq)]
@@ -434,7 +438,14 @@ impl World {
                 _ => None,
             };
             let mut deps = vec![];
-            let node: Node<Vec<u8>> = match twin {
+            let copy = match (spec.copy_of, twin) {
+                (Some(c), None) if i > 0 => Some(pick_idx(c, i)),
+                _ => None,
+            };
+            let node: Node<Vec<u8>> = if let Some(j) = copy {
+                deps = w.deps[j].clone();
+                to_mirror(&w.ops[j]).crdt_op
+            } else { match twin {
                 Some(j) => {
                     let m = to_mirror(&w.ops[j]);
                     let mut v = vec![];
@@ -463,7 +474,7 @@ impl World {
                     }
                     Node { children, value: value_bytes(spec.len, spec.seed) }
                 }
-            };
+            } };
             let mut source = w.idn.source_of(spec.source);
             let mut addr_kind = spec.addr;
             let mut honest;
@@ -1449,7 +1460,19 @@ fn op_strategy() -> BoxedStrategy<OpSpec> {
             sig,
             addr,
             twin_of: None,
+            copy_of: None,
         });
+    // a re-signed copy of an earlier op: identical node, own source / signature
+    let copy = (any::<u16>(), source_strategy(), sig_strategy()).prop_map(|(c, source, sig)| OpSpec {
+        children: vec![],
+        len: 0,
+        seed: 0,
+        source,
+        sig: if sig == Sig::Lifted { Sig::Honest } else { sig },
+        addr: Addr::This,
+        twin_of: None,
+        copy_of: Some(c),
+    });
     // hash twin of an earlier op: honestly signed by some source, or carrying the twin's signature
     let twin = (any::<u16>(), source_strategy(), any::<bool>()).prop_map(|(t, source, lifted)| OpSpec {
         children: vec![],
@@ -1459,8 +1482,9 @@ fn op_strategy() -> BoxedStrategy<OpSpec> {
         sig: if lifted { Sig::Lifted } else { Sig::Honest },
         addr: Addr::This,
         twin_of: Some(t),
+        copy_of: None,
     });
-    prop_oneof![12 => plain, 1 => twin].boxed()
+    prop_oneof![12 => plain, 1 => twin, 2 => copy].boxed()
 }
 
 fn perms_strategy() -> BoxedStrategy<Perms> {
